@@ -26,7 +26,14 @@ pub enum Case {
     /// two declarations whose generated names collide
     Collision { kind: String },
     /// project shape variations: with/without events and channels
-    Shape { events: bool, channels: bool, structs: bool },
+    Shape {
+        events: bool,
+        channels: bool,
+        structs: bool,
+        /// the type definitions live in a source file that is a symbolic link to a file outside the project
+        #[serde(default)]
+        linked: bool,
+    },
     /// a project type with an unusual (but legal) Rust name, under Vec / Option, at a site
     OddName { name: String, site: String, wrap: usize },
 }
@@ -119,11 +126,13 @@ impl Case {
                 let defs = format!("#[derive(Debug, Clone, Serialize, Deserialize)]\npub struct {} {{ pub id: i32 }}\n", name);
                 (typesite::build_project(site, std::slice::from_ref(&ty), &defs), cfg)
             }
-            Case::Shape { events, channels, structs } => {
+            Case::Shape { events, channels, structs, linked } => {
                 let mut s = String::from(gen::PRELUDE);
                 s.push_str("use tauri::{AppHandle, Emitter};\nuse tauri::ipc::Channel;\n");
                 if *structs {
-                    s.push_str(&gen::leaf_defs());
+                    if !*linked {
+                        s.push_str(&gen::leaf_defs());
+                    }
                     s.push_str("#[tauri::command]\npub fn get_item(k: Kind) -> Option<Item> { None }\n");
                 } else {
                     s.push_str("#[tauri::command]\npub fn plain(a: i32) -> String { String::new() }\n#[tauri::command]\npub fn noargs() {}\n");
@@ -133,6 +142,9 @@ impl Case {
                 }
                 if *events {
                     s.push_str("pub fn fire(app: &AppHandle) { app.emit(\"fired\", 1).unwrap(); }\n");
+                }
+                if *structs && *linked {
+                    return (Project { files: vec![("src/lib.rs".into(), s)], links: vec![("src/models.rs".into(), format!("{}{}", gen::PRELUDE, gen::leaf_defs()))] }, cfg);
                 }
                 (Project::single(s), cfg)
             }
@@ -175,8 +187,8 @@ pub fn eval(case: &Case, zod: bool) -> (Vec<Violation>, bool, Option<String>) {
                     Case::OddName { name, site, wrap } => {
                         v = v.field("odd_name", name.clone()).field("site", site.clone()).field("wrap", wrap.to_string());
                     }
-                    Case::Shape { events, channels, structs } => {
-                        v = v.field("shape", format!("e{}c{}s{}", events, channels, structs));
+                    Case::Shape { events, channels, structs, linked } => {
+                        v = v.field("shape", format!("e{}c{}s{}{}", events, channels, structs, if *linked { "-linked" } else { "" }));
                     }
                 }
                 vs.push(v);
@@ -266,7 +278,10 @@ pub fn run(tier: Tier) -> CheckResult {
     for e in [false, true] {
         for c in [false, true] {
             for s in [false, true] {
-                cases.push(Case::Shape { events: e, channels: c, structs: s });
+                cases.push(Case::Shape { events: e, channels: c, structs: s, linked: false });
+                if s {
+                    cases.push(Case::Shape { events: e, channels: c, structs: s, linked: true });
+                }
             }
         }
     }
